@@ -219,14 +219,30 @@ static uint64_t rng_probe(uint64_t seed)
 {
     cmb_random_initialize(seed);
     uint64_t h = 0;
+    /* parameters that differ from trial to trial by one unit in the last place (3.3 against 1.1 + 2.2, 0.3 against
+     * 3 * 0.1), used in the first and in the last call of the trial: whatever the samplers keep from the call before -
+     * which belongs to the trial this thread ran before - must not leak into this one */
+    volatile double a = 1.1, b = 2.2, c = 0.1;
+    const double shape = (seed & 1) ? 3.3 : a + b;
+    const double p = (seed & 2) ? 0.3 : 3 * c;
+    double g = cmb_random_gamma(shape, 0.5);
+    h = vx_mix(h, vx_hash_bytes(1, &g, 8));
+    h = vx_mix(h, (uint64_t)cmb_random_geometric(p));
     for (int k = 0; k < (int)(seed % 5) + 1; k++) {
         h = vx_mix(h, (uint64_t)cmb_random_flip());
     }
-    double g = cmb_random_gamma(0.5 + (double)(seed % 3), 1.0);
+    g = cmb_random_gamma(0.5 + (double)(seed % 3), 1.0);
     h = vx_mix(h, vx_hash_bytes(1, &g, 8));
     h = vx_mix(h, (uint64_t)cmb_random_geometric(0.3));
     double e = cmb_random_exponential(2.0);
     h = vx_mix(h, vx_hash_bytes(1, &e, 8));
+    g = cmb_random_std_beta(2.0, shape);
+    h = vx_mix(h, vx_hash_bytes(1, &g, 8));
+    h = vx_mix(h, (uint64_t)cmb_random_geometric(p));
+    for (int k = 0; k < 6; k++) {
+        g = cmb_random_gamma(shape, 0.5);
+        h = vx_mix(h, vx_hash_bytes(1, &g, 8));
+    }
     h = vx_mix(h, cmb_random_sfc64());
     return h;
 }
